@@ -189,6 +189,7 @@ void setup(vf::Options &o) {
   bool th = o.thorough;
   o.cap[vf::PREEMPT] = atoi(o.get("k", th ? "3" : "2").c_str());
   o.cap[vf::TIMER] = atoi(o.get("t", th ? "2" : "1").c_str());
+  o.cap[vf::WAKE] = atoi(o.get("w", th ? "1" : "0").c_str());  // spurious wake-ups of condition waits (thorough)
   o.table_bits = th ? 25 : 23;
   o.deadline_s = atof(o.get("budget", th ? "900" : "60").c_str());
   Cfg z{};
